@@ -786,7 +786,9 @@ def run_aspire(cfg: dict, ids: IdTable | None = None, role="single", resume_file
             kw["n_steps"] = c["n_steps"]
         if c["n_final"] is not None:
             kw["n_final_samples"] = c["n_final"]
-        if c["path"] is not None and ctx_cm is None:
+        if c["path"] is not None and ctx_cm is None and not (resume_file is not None and c.get("implicit_ckpt")):
+            # (implicit_ckpt: an instance rebuilt by resume_from_file keeps checkpointing to that file,
+            #  every iteration, without being told again)
             kw["checkpoint_path"] = c["path"]
             if c["every"] is not None:
                 kw["checkpoint_every"] = c["every"]
